@@ -11,7 +11,7 @@ rm -rf $scr; mkdir -p $scr && cp -r /repo/bct $scr/ && mkdir -p $scr/seed && cp 
 ( cd /repo && PYTHONWARNINGS=ignore PYTHONPATH=/repo /venv/bin/python $scr/seed/demo.py >/tmp/mut_$name.demo_without 2>&1 ); without=$?
 echo "demo: with change exit=$with, without exit=$without"
 for p in "$@"; do
-  ( cd /verif && VERIF_DEBUG_SKIP_MC=1 BCTPY_REPO=$scr timeout 1500 ./harness/check $p > /tmp/mut_${name}_$p.log 2>&1 ); rc=$?
+  ( cd /verif && VERIF_WORK_TAG=mut_$name VERIF_DEBUG_SKIP_MC=1 BCTPY_REPO=$scr timeout 1500 ./harness/check $p > /tmp/mut_${name}_$p.log 2>&1 ); rc=$?
   echo "check $p: exit=$rc  $(grep -c '^VIOLATION' /tmp/mut_${name}_$p.log) violation lines; $(grep -A1 '^VIOLATION' /tmp/mut_${name}_$p.log | grep -v '^VIOLATION' | grep -v '^--' | head -3 | tr '\n' ';')"
 done
-rm -rf $scr
+rm -rf $scr /verif/.work/tag_mut_$name/*/tlc_* 2>/dev/null
